@@ -22,7 +22,7 @@ from haiway import MISSING, Missing, State  # noqa: E402
 ID = "C04"
 TECHNIQUE = "explicit-state search over operation histories (mutation attempts, updated, copy, deepcopy) on real State instances with a 'value never changes' reference, plus the exhaustive equality pair matrix"
 RULE = (
-    "catalogue of 18 state classes (scalars, Sequence/Set/Mapping/tuple attributes, nested, "
+    "catalogue of 20 state classes (scalars, Sequence/Set/Mapping/tuple attributes, nested, "
     "recursive, generic-specialised, Missing-typed, defaulted, containers of containers, subclass, "
     "Any-typed) x 2-3 instances built from mutable argument containers (also read-only views of "
     "dicts the caller keeps) x every operation history up to length L (mutation attempts, updated "
@@ -139,6 +139,9 @@ CATALOGUE: dict[str, tuple[type, list]] = {
     "Node": (ak.Node, [lambda: {"value": 1}, lambda: {"value": 1, "next": ak.Node(value=2)}]),
     "BoxInt": (ak.Box[int], [lambda: {"item": 1}]),
     "GInt": (ak.GI[int], [lambda: {"v": 1}, lambda: {}]),
+    # two specialisations of one generic whose arguments carry the same name ("Sequence")
+    "GSeqInt": (ak.GI[Sequence[int]], [lambda: {"v": [1]}, lambda: {"v": []}, lambda: {}]),
+    "GSeqStr": (ak.GI[Sequence[str]], [lambda: {"v": ["a"]}, lambda: {"v": []}, lambda: {}]),
     "MissT": (MissT, [lambda: {}, lambda: {"m": 3, "n": 1}, lambda: {"m": 3}]),
     "Defaults": (Defaults, [lambda: {}, lambda: {"y": [5]}]),
     "SeqSeq": (SeqSeq, [lambda: {"rows": [[1], [2, 3]]}]),
@@ -161,6 +164,8 @@ REPLACE: dict[str, dict[str, tuple]] = {
     "Node": {"value": (lambda: 9, "bad", ""), "next": (lambda: ak.Node(value=5), 7, 0)},
     "BoxInt": {"item": (lambda: 9, "bad", "")},
     "GInt": {"v": (lambda: 9, "bad", "")},
+    "GSeqInt": {"v": (lambda: [9], ["bad"], 0)},
+    "GSeqStr": {"v": (lambda: ["z"], [7], 0)},
     "MissT": {"m": (lambda: 9, "bad", ""), "n": (lambda: 4, "bad", "")},
     "Defaults": {"x": (lambda: 9, "bad", ""), "y": (lambda: [9], ["bad"], 0)},
     "SeqSeq": {"rows": (lambda: [[9]], [["bad"]], 0)},
